@@ -40,7 +40,7 @@ THEOREMS = [
 LEAN_MODULES = ["PorepyVerif.C05.Props"]
 AUDIT = "PorepyVerif/C05/Audit.lean"
 DRIVER = "PorepyVerif/C05/Driver.lean"
-N = {"quick": 300, "thorough": 5000}
+N = {"quick": 300, "thorough": 6000}
 RULE = ("histories of 1-25 (thorough: 1-40) EquationSystem calls on md-grids with 1-4 subdomains (dim 0-3, 1-3 cells per "
         "direction) and 0-3 mortar grids (dim 0-2, one or two sides), grids instantiated in random order; variables with "
         "cells/faces/nodes multiplicities 0-3 (zero-size blocks frequent) and names from a pool of 4 so that the same name "
@@ -576,7 +576,21 @@ class _Sim:
         self.grids = grids
         self.vars = []      # dicts: idx name grid size alive
         self.creates = []   # (op index, ids) of successful creates
-        self.written = set()  # (idx, slotkind, i) known to hold values of the right size
+        self.stored = {}    # (name, grid, slotkind, i) -> length of the stored array (None: unknown)
+
+    def good(self, v, key):
+        """the storage of variable v holds an array of v's size at the slot `key`"""
+        return self.stored.get((v["name"], v["grid"]) + key) == v["size"]
+
+    def note_set(self, op, ids):
+        keys = _slotkeys(op)
+        sel = [v for v in self.alive() if v["idx"] in set(ids)]
+        if op["additive"] or not keys:
+            return  # additive writes never change a length
+        exact = len(op["vals"]) == sum(v["size"] for v in sel)
+        for v in sel:
+            for k in keys:
+                self.stored[(v["name"], v["grid"]) + k] = v["size"] if exact else None
 
     def alive(self):
         return [v for v in self.vars if v["alive"]]
@@ -628,6 +642,13 @@ class _Sim:
     def total(self, ids):
         s = set(ids)
         return sum(v["size"] for v in self.alive() if v["idx"] in s)
+
+
+def _slotkeys(op):
+    it, ts = op.get("iter"), op.get("ts")
+    if (it is None and ts is None) or (it is not None and it < 0) or (ts is not None and ts < 0):
+        return []
+    return ([("iter", it)] if it is not None else []) + ([("ts", ts)] if ts is not None else [])
 
 
 def _gen_grids(rng):
@@ -748,10 +769,24 @@ def gen_case(rng, tier):
             ops.append(op)
         elif t < 0.62:
             refs = _gen_refs(rng, sim, bad and rng.random() < 0.3)
-            ids = sim.resolve(refs)
-            n = sim.total(ids)
             slot = rng.choice([{"iter": 0}, {"iter": 0}, {"iter": 1}, {"ts": 0}, {"ts": 1}, {"iter": 0, "ts": 0}, {"iter": 2, "ts": 1}])
             additive = rng.random() < 0.4
+            if additive and not bad and rng.random() < 0.85:
+                # mostly well-formed additive writes: a slot and variables that hold values of the right size there
+                options = []
+                for sl in ({"iter": 0}, {"iter": 1}, {"ts": 0}, {"ts": 1}, {"iter": 0, "ts": 0}, {"iter": 2, "ts": 1}):
+                    cand = [v for v in sim.alive() if all(sim.good(v, k) for k in _slotkeys(sl))]
+                    if cand:
+                        options.append((sl, cand))
+                if options:
+                    slot, cand = rng.choice(options)
+                    refs = [[1, v["idx"]] for v in rng.sample(cand, rng.randint(1, len(cand)))]
+                    if len(cand) == len(sim.alive()) and rng.random() < 0.25:
+                        refs = None
+                else:
+                    additive = False
+            ids = sim.resolve(refs)
+            n = sim.total(ids)
             if bad:
                 b = rng.random()
                 if b < 0.5:
@@ -763,12 +798,25 @@ def gen_case(rng, tier):
                 else:
                     additive = True
             op = {"op": "set", "vals": [_dy(rng) for _ in range(n)], "refs": refs, "iter": slot.get("iter"), "ts": slot.get("ts"), "additive": additive}
+            sim.note_set(op, ids)
             ops.append(op)
         elif t < 0.74:
             refs = _gen_refs(rng, sim, bad and rng.random() < 0.3)
             slot = rng.choice([{"iter": 0}, {"iter": 0}, {"iter": 1}, {"ts": 0}, {"ts": 1}, {"iter": 2}])
             if bad:
                 slot = rng.choice([{}, {"iter": 0, "ts": 0}, {"iter": -1}, {"ts": 2}, slot])
+            elif rng.random() < 0.8:
+                # mostly reads of variables that were written before (in an order unrelated to the global one)
+                slots = [sl for sl in ({"iter": 0}, {"iter": 1}, {"iter": 2}, {"ts": 0}, {"ts": 1}) if any(sim.good(v, _slotkeys(sl)[0]) for v in sim.alive())]
+                if slots:
+                    slot = rng.choice(slots)
+                    cand = [v for v in sim.alive() if sim.good(v, _slotkeys(slot)[0])]
+                    if len(cand) == len(sim.alive()) and rng.random() < 0.3:
+                        refs = None
+                    else:
+                        refs = [[1, v["idx"]] for v in rng.sample(cand, rng.randint(1, len(cand)))]
+                        if rng.random() < 0.2:
+                            refs.append(list(rng.choice(refs)))
             ops.append({"op": "get", "refs": refs, "iter": slot.get("iter"), "ts": slot.get("ts")})
         elif t < 0.82:
             ops.append({"op": "dofs_of", "refs": _gen_refs(rng, sim, bad)})
@@ -807,9 +855,15 @@ def stats(cases, impl_outs):
     kinds = Counter(o["op"] for c in cases for o in c["ops"])
     errs = Counter()
     zero_blocks = blocks = maxdofs = 0
-    for out in impl_outs:
+    ok = Counter()
+    for c, out in zip(cases, impl_outs):
         if not isinstance(out, list):
             continue
+        k = 0
+        for j, op in enumerate(c["ops"]):
+            if k < len(out) and not (isinstance(out[k], dict) and "err" in out[k]):
+                ok[op["op"] + ("_additive" if op.get("additive") else "")] += 1
+            k += 1 + (1 if op["op"] in LAYOUT_OPS or j == len(c["ops"]) - 1 else 0) + (1 if op["op"] in LAYOUT_OPS else 0)
         for o in out:
             if isinstance(o, dict) and "err" in o:
                 errs[o["err"]] += 1
@@ -817,7 +871,7 @@ def stats(cases, impl_outs):
                 blocks += len(o["sizes"])
                 zero_blocks += sum(1 for s in o["sizes"] if s == 0)
                 maxdofs = max(maxdofs, sum(o["sizes"]))
-    return {"ops": dict(kinds), "errors_raised_by_impl": dict(errs), "block_observations": blocks, "zero_size_block_observations": zero_blocks,
+    return {"ops": dict(kinds), "calls_that_succeeded": dict(ok), "errors_raised_by_impl": dict(errs), "block_observations": blocks, "zero_size_block_observations": zero_blocks,
             "max_num_dofs": maxdofs, "history_length": dict(Counter(min(len(c["ops"]) // 5 * 5, 40) for c in cases)),
             "subdomains": dict(Counter(sum(1 for g in c["grids"] if g["kind"] == "sub") for c in cases)),
             "interfaces": dict(Counter(sum(1 for g in c["grids"] if g["kind"] == "intf") for c in cases)),
